@@ -29,14 +29,14 @@ LOWER_TECH = ("TLA+ model checking: MC_Lower.tla enumerates every well-nested fu
               "Exec.tla semantics on every decision/trap path in lock-step with the ideal probe semantics "
               "(ProbeIdeal.tla) on the original body for C16-C20")
 LOWER = {
- "C15": "every plan of before/after/alternate/removal injections (1-2 entries exhaustive on small bodies, up to 4 on seeded random larger ones, four API paths): the decoded output body must equal ProbeIdeal!Splice exactly, locals unchanged",
+ "C15": "every plan of before/after/alternate/removal injections (1-2 entries exhaustive on small bodies, up to 5 on seeded random larger ones, six API paths incl. ComponentIterator; a replacement and a removal of one instruction in both orders: the last request decides): the decoded output body must equal ProbeIdeal!Splice exactly, locals unchanged",
  "C16": "for plans of neutral probes in all non-replacing modes the lowered body must validate and, on every explored decision/trap path (loops bounded by 2 back-edges), produce the same sequence of original effects, decisions, return value and trap as the original body; before/after probes must fire at the positional moments",
  "C17": "function entry/exit probes: the ideal machine fires entry once before the first original event and exit before ret however reached (fall-through, return, branch to the function label) and before unreachable, never when an op traps; compared as event logs on every path; arity-1 results compared by value",
  "C18": "block-entry probes on block/loop/if/else: ideal fires on entering the body/arm incl. every loop back-edge; compared on every path",
  "C19": "block-exit probes: ideal fires when the body falls through to its own end (if: then-arm to its else/end), never on branches; bodies include constructs nested in if-arms",
  "C20": "semantic-after on block/if/else and on br/br_if/br_table with non-loop targets: ideal fires on arrival after the construct / once per executed branch; compared on every path",
  "C21": "block-alternate on block/loop/if/else (with and without replacement code, with before/after elsewhere): decoded output must equal ProbeIdeal!Splice (region removed, replacement in place)",
- "C22": "every accepted special-mode injection through ModuleIterator (current location and inject_at) and FunctionModifier (location and inject_at) must leave its probe in the encoded body and no 'BUG:' record in the log",
+ "C22": "every accepted special-mode injection through ModuleIterator, ComponentIterator (each at the current location and through inject_at) and FunctionModifier (location and inject_at) must leave its probe in the encoded body and no 'BUG:' record in the log",
 }
 for k, v in LOWER.items():
     CHECKS[k] = ("lowering-family", LOWER_TECH, v, "DESIGN.md 6 %s, 4.3, App. B.2" % k)
@@ -45,7 +45,7 @@ ITER_TECH = ("TLA+ model checking: MC_Iter.tla enumerates module/component metad
              "injection plans and checks VisitComplete/VisitOrdered/EndFlags on IterIdeal.tla; each case is replayed on the real "
              "iterators; IterTrace.tla validates every recorded call result against the Ideal visiting order")
 CHECKS["C25"] = ("iter-family", ITER_TECH, "ModuleIterator: construction, curr_loc (function, instruction, end flag, operator), every next() result and reset() on all modules with 0-3 local functions of 1-3 instructions, with/without imports, every skip subset (incl. all skipped, first skipped, unknown IDs)", "DESIGN.md 6 C25")
-CHECKS["C26"] = ("iter-family", ITER_TECH, "ComponentIterator: same judgement across 1-2 core modules with per-module skip lists (incl. empty modules and skipped trailing functions), plus byte equality of every module encoded after the same plan was applied through a ComponentIterator and through per-module ModuleIterators", "DESIGN.md 6 C26")
+CHECKS["C26"] = ("iter-family", ITER_TECH, "ComponentIterator: same judgement across 1-2 core modules with per-module skip lists (incl. empty modules and skipped trailing functions), plus byte equality of every module encoded after the same plan was applied through a ComponentIterator and through per-module ModuleIterators; in addition the lowering family runs every plan of its comp / comp_at paths (all injection modes incl. the special ones, module wrapped in a component) and LowerTrace requires the encoded module to equal the one the same plan gives through ModuleIterator", "DESIGN.md 6 C26")
 
 CHECKS["C27"] = ("comp-family", "TLA+ model checking: CompNest.tla enumerates nested component trees (depth <= 4), checks that the transcribed "
    "parse algorithm reconstructs every tree from its flat payload stream (Impl => Ideal) and documents the former algorithm's "
@@ -109,7 +109,7 @@ m = {"version": 1,
      "engines": [
         {"name": "module-family", "path": "lib/fam_module.py", "serves_properties": [p for p in props if p in CHECKS and CHECKS[p][0] == "module-family"],
          "kind_free_text": "TLC (MC_Module.tla generator over ModuleIdeal.tla) -> Rust harness replay on the real wirm API -> TLC trace validation (ModuleTrace.tla)"},
-        {"name": "lowering-family", "path": "lib/fam_lower.py", "serves_properties": [p for p in props if p in CHECKS and CHECKS[p][0] == "lowering-family"] + ["C04", "C05"],
+        {"name": "lowering-family", "path": "lib/fam_lower.py", "serves_properties": [p for p in props if p in CHECKS and CHECKS[p][0] == "lowering-family"] + ["C04", "C05", "C26"],
          "kind_free_text": "TLC (MC_Lower.tla generator) + seeded random generator -> real injection APIs + encode -> TLC as execution engine (LowerTrace.tla over Exec.tla / ProbeIdeal.tla)"},
         {"name": "iter-family", "path": "lib/fam_iter.py", "serves_properties": ["C25", "C26"],
          "kind_free_text": "TLC (MC_Iter.tla over IterIdeal.tla) -> real ModuleIterator/ComponentIterator -> TLC trace validation (IterTrace.tla)"},
